@@ -73,10 +73,12 @@ pub struct Builder<'a> {
 
 impl Builder<'_> {
     pub fn confirmed(mut self, confirmed: bool) -> Result<Self, Error> {
-        self.try_use_confirmed("confirmed").map(|()| {
-            self.confirmed = confirmed;
-            self
-        })
+        // asking for an ordinary commit needs no capability: only `<confirmed/>` itself does
+        if confirmed {
+            self.try_use_confirmed("confirmed")?;
+        }
+        self.confirmed = confirmed;
+        Ok(self)
     }
 
     pub fn confirm_timeout(mut self, timeout: Duration) -> Result<Self, Error> {
@@ -87,17 +89,19 @@ impl Builder<'_> {
     }
 
     pub fn persist(mut self, token: Option<Token>) -> Result<Self, Error> {
-        self.try_use_persist("persist").map(|()| {
-            self.persist = token;
-            self
-        })
+        if token.is_some() {
+            self.try_use_persist("persist")?;
+        }
+        self.persist = token;
+        Ok(self)
     }
 
     pub fn persist_id(mut self, token: Option<Token>) -> Result<Self, Error> {
-        self.try_use_persist("persist-id").map(|()| {
-            self.persist_id = token;
-            self
-        })
+        if token.is_some() {
+            self.try_use_persist("persist-id")?;
+        }
+        self.persist_id = token;
+        Ok(self)
     }
 
     fn try_use_confirmed(&self, param_name: &'static str) -> Result<(), Error> {
